@@ -115,6 +115,10 @@ func MimeDump(t any, accept string) (data []byte, mimeType string, format uint8,
 	if format == AUTO {
 		return nil, "", 0, ErrIncompatibleFormat
 	}
+	mimeType, ok := FormatToMimeType[format]
+	if !ok {
+		return nil, "", 0, ErrIncompatibleFormat
+	}
 
 	// Serialize and return.
 	data, err = dumpWithoutIdentifier(t, format, "")
